@@ -55,6 +55,11 @@ func normPos(t *TyDef, v *Val, proto bool) *Val {
 
 func normIn(t *TyDef, v *Val) *Val {
 	switch t.K {
+	case "ext":
+		if v.P == nil {
+			return v
+		}
+		return &Val{K: "p", P: normIn(extPayload[t.Name], v.P)}
 	case "named":
 		if t.Elem.K == "time" {
 			return v
